@@ -10,7 +10,8 @@ OK, VIOLATED, UNKNOWN = 'discharged', 'violated', 'unknown'
 # rules whose verdicts never rest on what a local variable is called (roles resolved by shape, attributes, call
 # structure, arithmetic): their violations are exempt from the vocabulary guard
 ROBUST_RULES = ('PRED', 'ARGSWAP', 'DIVSAFE', 'SHARED', 'PURE', 'CACHEINV', 'NAMEUSE', 'ANGIDX', 'UNIQGUARD', 'NONETEST', 'FLAVOUR',
-                'SIGN', 'SELORDER', 'LAY', 'FIT', 'CHAIN', 'USE', 'POWNAME', 'TILE', 'DISPATCH', 'PAIR', 'REKEY', 'BIND', 'EXC')
+                'SIGN', 'SELORDER', 'LAY', 'FIT', 'CHAIN', 'USE', 'POWNAME', 'TILE', 'DISPATCH', 'DECOMP', 'ENDPOINT', 'PAIR', 'REKEY', 'BIND', 'EXC',
+                'ECHO', 'SOLVERARG')
 
 
 class Obligation(object):
